@@ -97,6 +97,18 @@ fn main() {
         }
         "replay" => std::process::exit(replay(&args[2])),
         "ordertest" => ordertest::run(),
+        "lexdiff" => {
+            let mut n = 0;
+            for c in gen::f_str(3, 4, 1) {
+                for syn in [cfg::Syn::Lua51, cfg::Syn::Luau, cfg::Syn::All] {
+                    let i = explore::analyse(&c.text, syn, false);
+                    if i.parses && !i.lex_ok && n < 25 {
+                        println!("{:?} {:?} {:?}", syn, c.text, lex::lex(&c.text).err().map(|e| e.0));
+                        n += 1;
+                    }
+                }
+            }
+        }
         "dump" => ordertest::dump(&args[2]),
         "fmt" => {
             let text = std::fs::read_to_string(&args[2]).unwrap();
